@@ -22,7 +22,9 @@ What they exclude is exactly what the code gets wrong (or what needs context):
   was read as LF by the independent reader: `NoCR`, `escapePdfStringRawCR`);
 * an integer that the *following bytes* turn into an indirect reference
   (`Spec.refAhead` / the library's `Integer Integer R` look-ahead, which also takes the name `/R`);
-* numbers whose token the library cannot read (`i64` overflow, non-decimal tokens).
+* integers (`Object::Integer`) outside `i64` — not constructible — and non-decimal real tokens
+  (non-finite reals).  A real written as an integer token outside `i64` is read by the library
+  as a real carrying that token (`readBackLib`; before the repair of C09-F4: an error).
 -/
 namespace OxiVerif.C09
 open OxiVerif.Spec.Syntax (Obj)
@@ -34,6 +36,32 @@ open OxiVerif.Model
 def readBackReal (fix6 : List Nat) : Obj :=
   let t := trimReal fix6
   if Spec.Syntax.isIntTok t then .int (Spec.Syntax.intVal t) else .real t
+
+def inI64 (i : Int) : Bool := -9223372036854775808 ≤ i && i ≤ 9223372036854775807
+
+/-- what the library returns for a written real: like `readBackReal`, except that an integer
+    token outside `i64` stays a real carrying that token (the same number: `intVal` of the token) -/
+def readBackRealLib (fix6 : List Nat) : Obj :=
+  let t := trimReal fix6
+  if Spec.Syntax.isIntTok t && inI64 (Spec.Syntax.intVal t) then .int (Spec.Syntax.intVal t) else .real t
+
+mutual
+/-- the value the library's parser returns for a written tree: `readBack` with `readBackRealLib` -/
+def readBackLib : Obj → Obj
+  | .real t => readBackRealLib t
+  | .hexstr s => .str s
+  | .arr xs => .arr (readBackLibList xs)
+  | .dict kvs => .dict (readBackLibKVs kvs)
+  | o => o
+def readBackLibList : List Obj → List Obj
+  | [] => []
+  | x :: xs => readBackLib x :: readBackLibList xs
+def readBackLibKVs : List (List Nat × Obj) → List (List Nat × Obj)
+  | [] => []
+  | (k, v) :: rest => (k, readBackLib v) :: readBackLibKVs rest
+end
+
+attribute [simp] readBackLib readBackLibList readBackLibKVs
 
 mutual
 /-- the value a reader must return for a written tree: hexadecimal strings are strings, a real is
@@ -122,8 +150,6 @@ def libDictFollowOk (rest : List Nat) : Bool :=
   | .ok (.comment _, _) => false
   | .ok _ => true
 
-def inI64 (i : Int) : Bool := -9223372036854775808 ≤ i && i ≤ 9223372036854775807
-
 /-! ## tree-level conditions (continuation passing: `rest` = the bytes that follow the value) -/
 
 mutual
@@ -160,7 +186,7 @@ def SafeLib : Obj → List Nat → Bool
     IsDecTok tok && libEnds rest &&
       (if Spec.Syntax.isIntTok tok then
         let i := Spec.Syntax.intVal tok
-        inI64 i && (!(0 ≤ i && i ≤ 4294967295) || libIntFollowOk rest)
+        (!(0 ≤ i && i ≤ 4294967295) || libIntFollowOk rest)
       else true)
   | .str _, _ => true
   | .hexstr bs, _ => allB (fun b => b < 256) bs
